@@ -78,13 +78,20 @@ func subPackets(thorough bool) [][]subEntry {
 
 // C07: SUBSCRIBE/UNSUBSCRIBE always acknowledged and effective at the ack.
 func C07(c *core.Ctx) {
-	c.Rep.Bound = "ENUM x HIST: every SUBSCRIBE with 1 entry over 8 filters (3 invalid) x QoS 0-3, pairs/triples over a reduced set (all pairs in thorough), lists of 4/5/8/16 entries (all valid, one invalid at each position, out-of-range QoS, repeated, overlapping), under server QoS cap 2 and 1; each followed by probe publishes, the matching UNSUBSCRIBE and probes again; plus all orders of sub/unsub/pub on one connection to depth 4/5; SCHED: a client thread publishes a probe the moment the SUBACK / UNSUBACK has arrived (1 and 2 filters), every schedule of the broker goroutines up to 2 (quick) / 3 (thorough) deviations"
+	c.Rep.Bound = "ENUM x HIST (third round: with 24 KiB of the subscriber's own traffic between SUBSCRIBE, probes and UNSUBSCRIBE, so that its 16 KiB ring is overwritten): every SUBSCRIBE with 1 entry over 8 filters (3 invalid) x QoS 0-3, pairs/triples over a reduced set (all pairs in thorough), lists of 4/5/8/16 entries (all valid, one invalid at each position, out-of-range QoS, repeated, overlapping), under server QoS cap 2 and 1; each followed by probe publishes, the matching UNSUBSCRIBE and probes again; plus all orders of sub/unsub/pub on one connection to depth 4/5; SCHED: a client thread publishes a probe the moment the SUBACK / UNSUBACK has arrived (1 and 2 filters), every schedule of the broker goroutines up to 2 (quick) / 3 (thorough) deviations"
 	c.Rep.Rule = "per packet: exactly one SUBACK with the same id and one code per entry in order (min(requested, cap) or 0x80) or the connection is closed; probes on a, a/b, b, t/0.. must be delivered according to exactly the granted entries, and not at all after the UNSUBACK; non-trivial = packets with at least one granted entry"
 	comps := map[string]bool{"acks": true, "route": true, "closed": true, "stream": true}
 	pkts := subPackets(c.Thorough())
 	n := 0
-	for _, cfg := range []Config{{}, {MaxQos: 1, MaxQosSet: true}} {
+	for _, cfg := range []Config{{}, {MaxQos: 1, MaxQosSet: true}, {BufferSize: -1}} {
+		// third round: the subscriber's own traffic overwrites its incoming ring between the
+		// SUBSCRIBE and the probes, and again after the UNSUBSCRIBE (every fifth packet; thorough: all)
+		flooded := cfg.BufferSize == -1
+		cfg.BufferSize = 0
 		for pi, pk := range pkts {
+			if flooded && !c.Thorough() && pi%5 != 0 {
+				continue
+			}
 			n++
 			if c.NShards > 1 && n%c.NShards != c.Shard {
 				continue
@@ -117,9 +124,15 @@ func C07(c *core.Ctx) {
 				probes = append(probes, pub("P", t, 1, id, "probe-"+t))
 			}
 			hist := []Action{conn("P", "p", true), conn("S", "s", true), sa}
+			if flooded {
+				hist = append(hist, flood("S")...)
+			}
 			hist = append(hist, probes...)
 			// the UNSUBSCRIBE must list valid filters only to be well-formed; invalid ones are kept: the broker must still answer
 			hist = append(hist, ua)
+			if flooded {
+				hist = append(hist, flood("S")...)
+			}
 			for i := range probes {
 				p2 := probes[i]
 				p2.ID += 100
@@ -129,6 +142,9 @@ func C07(c *core.Ctx) {
 			name := fmt.Sprintf("packet[%d]", pi)
 			if cfg.MaxQosSet {
 				name += "-maxqos1"
+			}
+			if flooded {
+				name += "-flooded"
 			}
 			spec := &HistSpec{Name: name, Cfg: cfg, Comps: comps}
 			r := spec.RunHistory(hist, false)
